@@ -163,6 +163,7 @@ func Run(cfg hx.Config) error {
 	h.fieldSweepStream()
 	h.xdbStream()
 	h.dlexStream()
+	h.linksStream()
 	h.ndbStream()
 	return nil
 }
@@ -204,6 +205,10 @@ func (h *harness) replayLine(line string) {
 	f := strings.Fields(line)
 	if len(f) == 3 {
 		h.replayLine3(f)
+		return
+	}
+	if len(f) == 2 && f[0] == "links" {
+		h.opLinks(f[1], "corpus")
 		return
 	}
 	if len(f) != 2 {
